@@ -170,6 +170,7 @@ def _work(spec):
             n, v = check(X) if spec["cls"] != "D" else check_directed(X)
             F.detour(X)
             F.morph(X)  # a different network with the same node and edge counts
+            F.rename(X)  # one node replaced by a node with a new label (same counts, another node set)
             n2, v2 = check(X) if spec["cls"] != "D" else check_directed(X)
             F.grow(X)  # one more edge with a fresh ID
             n3, v3 = check(X) if spec["cls"] != "D" else check_directed(X)
@@ -202,6 +203,7 @@ def family(tier):
     for s in base[::9]:
         for _, nm in F.exotic_label_maps(s["nodes"]):
             items.append(F.relabel(s, node_map=nm))
+    items += F.wide()  # more than ten nodes and edges
     # longer paths / cycles / nested edges
     items += [F.H([[i, i + 1] for i in range(6)]), F.H([[i, (i + 1) % 6] for i in range(6)]),
               F.H([[0, 1, 2], [2, 3, 4], [4, 5, 6], [6, 7]]), F.H([[1, 2, 3, 4], [1, 2, 3], [1, 2], [1], [3, 4], [4, 5]]),
